@@ -431,7 +431,7 @@ func (w *dnsWorld) reloadReuse(rs *dnsRuleSet) {
 		return
 	}
 	w.s.Notef("reload: ReuseForReload with\n%s", rs.textCache)
-	nf, err := w.ctl.ReuseForReload(w.controllerOption(), routing)
+	nf, err := w.ctl.ReuseForReload(w.controllerOptionFor(true), routing)
 	if err != nil || nf == nil {
 		w.s.Failf("harness-dns", "ReuseForReload: %v", err)
 		return
